@@ -1,7 +1,7 @@
 (* FieldProofs.v — reading back what the formatter wrote, field by field (C12, C20): the consume-from-the-front
    primitives on a text that starts with a known field. *)
 From Astro Require Import Base Text CalSpec DateModel TimeModel ApiModel InstantSpec FormatModel ParseModel PatternSpec
-  DateProofs TimeProofs ClockProofs OffsetProofs ErrProofs TextProofs PadProofs.
+  DateProofs WeekProofs TimeProofs ClockProofs OffsetProofs ErrProofs TextProofs PadProofs.
 
 (* ---------- the value of what zero_padded / u_to_string write ---------- *)
 Lemma zeros_digits k : all_digits (zeros k) = true.
@@ -765,4 +765,101 @@ Proof.
       { rewrite (zp_2digits doy 1), zero_padded_2 by lia. exact Hr. }
       rewrite A2, B. reflexivity.
     + rewrite (zp_3digits doy 1) by lia. rewrite !nth_digit_zp3 by lia. rewrite pick3 by lia. reflexivity.
+Qed.
+
+(* ---------- fields that are skipped: era, quarter, week, weekday ---------- *)
+Lemma remove_k a rest : remove_part (Z.of_nat (length a)) (a ++ rest) = Ok rest.
+Proof. change (Z.of_nat (length a)) with (char_count a). apply remove_part_app. Qed.
+
+Definition g_text (w : Z) (bc : bool) : text :=
+  match (if 5 <? w then 4 else w) with
+  | 1 | 2 | 3 => if bc then [66;67] else [65;68]
+  | 5 => if bc then [66] else [65]
+  | _ => if bc then BEFORE_CHRIST else ANNO_DOMINI
+  end.
+Lemma era_back now w bc rest : 1 <= w -> parse_date_part now (run 71 w) (g_text w bc ++ rest) = Ok (None, rest).
+Proof.
+  intros Hw. rewrite pdp_unfold by lia. cbv zeta. cbn [Z.eqb Pos.eqb]. unfold g_text.
+  assert (C : w = 1 \/ w = 2 \/ w = 3 \/ w = 4 \/ w = 5 \/ 5 < w) by lia.
+  destruct C as [-> | [-> | [-> | [-> | [-> | C]]]]].
+  1-3: destruct bc; cbn [Z.ltb Z.compare Pos.compare Pos.compare_cont];
+       match goal with |- context [remove_part ?k (?a ++ ?r)] => change k with (Z.of_nat (length a)); rewrite (remove_k a r) end; reflexivity.
+  - destruct bc; cbn [Z.ltb Z.compare Pos.compare Pos.compare_cont]; unfold starts_with, BEFORE_CHRIST, ANNO_DOMINI;
+    cbn [length firstn app text_eqb Z.eqb Pos.eqb andb];
+    match goal with |- context [must (remove_part ?k ?s)] => match goal with |- _ = Ok (_, ?r) =>
+      first [ change s with (BEFORE_CHRIST ++ r); change k with (Z.of_nat (length BEFORE_CHRIST)); rewrite (remove_lit BEFORE_CHRIST r)
+            | change s with (ANNO_DOMINI ++ r); change k with (Z.of_nat (length ANNO_DOMINI)); rewrite (remove_lit ANNO_DOMINI r) ] end end; reflexivity.
+  - destruct bc; cbn [Z.ltb Z.compare Pos.compare Pos.compare_cont];
+       match goal with |- context [remove_part ?k (?a ++ ?r)] => change k with (Z.of_nat (length a)); rewrite (remove_k a r) end; reflexivity.
+  - destruct (Z.ltb_spec 5 w); [|lia].
+    assert (M : forall A B Cc : res (option (punit * Z) * text), match w with 1 | 2 | 3 => A | 5 => B | _ => Cc end = Cc).
+    { intros. destruct w as [|p|p]; try lia. do 3 (try destruct p as [p|p|]); try lia; reflexivity. }
+    rewrite M. destruct bc; unfold starts_with, BEFORE_CHRIST, ANNO_DOMINI; cbn [length firstn app text_eqb Z.eqb Pos.eqb andb];
+    match goal with |- context [must (remove_part ?k ?s)] => match goal with |- _ = Ok (_, ?r) =>
+      first [ change s with (BEFORE_CHRIST ++ r); change k with (Z.of_nat (length BEFORE_CHRIST)); rewrite (remove_lit BEFORE_CHRIST r)
+            | change s with (ANNO_DOMINI ++ r); change k with (Z.of_nat (length ANNO_DOMINI)); rewrite (remove_lit ANNO_DOMINI r) ] end end; reflexivity.
+Qed.
+
+Definition q_text (w q : Z) : text :=
+  match w with
+  | 1 | 2 => zero_padded q w
+  | 3 => 81 :: u_to_string q
+  | 4 => add_ordinal_indicator q ++ str [32;113;117;97;114;116;101;114]
+  | _ => zero_padded q 1
+  end.
+Ltac rm_lit := match goal with
+  | |- context [must (remove_part (byte_len ?e) ?s)] => match goal with |- _ = Ok (_, ?r) => change s with (e ++ r); change (byte_len e) with (Z.of_nat (length e)); rewrite (remove_lit e r) end
+  | |- context [remove_part ?k (?a ++ ?r)] => change k with (Z.of_nat (length a)); rewrite (remove_k a r)
+  end.
+Lemma quarter_back now w q rest : 1 <= w -> 1 <= q <= 4 -> parse_date_part now (run 113 w) (q_text w q ++ rest) = Ok (None, rest).
+Proof.
+  intros Hw Hq. rewrite pdp_unfold by lia. cbv zeta. cbn [Z.eqb Pos.eqb]. unfold q_text.
+  assert (Q : q = 1 \/ q = 2 \/ q = 3 \/ q = 4) by lia.
+  assert (C : w = 1 \/ w = 2 \/ w = 3 \/ w = 4 \/ 4 < w) by lia.
+  destruct C as [-> | [-> | [-> | [-> | C]]]].
+  1-3: destruct Q as [-> | [-> | [-> | ->]]]; vm_compute zero_padded; vm_compute u_to_string; rm_lit; reflexivity.
+  - destruct Q as [-> | [-> | [-> | ->]]]; vm_compute add_ordinal_indicator; unfold find_prefix, starts_with, QUARTERS, str;
+    cbn [length firstn app text_eqb Z.eqb Pos.eqb andb Z.add]; rm_lit; reflexivity.
+  - assert (M : forall A B Cc Dd E : res (option (punit * Z) * text), match w with 1 | 2 => A | 3 => B | 4 => Cc | _ => E end = E).
+    { intros. destruct w as [|p|p]; try lia. do 3 (try destruct p as [p|p|]); try lia; reflexivity. }
+    assert (M' : forall A B Cc E : text, match w with 1 | 2 => A | 3 => B | 4 => Cc | _ => E end = E).
+    { intros. destruct w as [|p|p]; try lia. do 3 (try destruct p as [p|p|]); try lia; reflexivity. }
+    rewrite M, M'; [|exact fmt_err]. destruct Q as [-> | [-> | [-> | ->]]]; vm_compute zero_padded; rm_lit; reflexivity.
+Qed.
+
+Lemma week_back now w wk rest : 1 <= w -> 1 <= wk <= 53 -> (w = 1 -> nth_is_digit rest 0 = false) ->
+  parse_date_part now (run 119 w) (zero_padded wk (get_length w 2 2) ++ rest) = Ok (None, rest).
+Proof.
+  intros Hw Hk Hr. rewrite pdp_unfold by lia. cbv zeta. cbn [Z.eqb Pos.eqb]. unfold get_length.
+  destruct (Z.eqb_spec w 1) as [->|N1].
+  - cbn [Z.ltb Z.compare Pos.compare Pos.compare_cont]. destruct (Z.ltb_spec wk 10).
+    + destruct (zp1_small wk rest ltac:(lia) (Hr eq_refl)) as [A _]. rewrite A. rewrite zero_padded_1, u_to_string_1 by lia.
+      change ([48 + wk] ++ rest) with (48 + wk :: rest). rewrite remove1. reflexivity.
+    + destruct (zp1_big wk rest ltac:(lia)) as [A _]. rewrite A. rewrite zero_padded_1, u_to_string_2 by lia.
+      change 2 with (Z.of_nat (length [48 + wk / 10; 48 + wk mod 10])). rewrite remove_lit. reflexivity.
+  - assert (E : zero_padded wk (if 2 <? w then 2 else w) = zero_padded wk 2 /\ (if 2 <? w then 2 else w) = 2).
+    { destruct (Z.ltb_spec 2 w); [split; reflexivity|]. assert (w = 2) by lia. subst. split; reflexivity. }
+    destruct E as [E1 E2]. rewrite E1, E2. rewrite zero_padded_2 by lia.
+    change 2 with (Z.of_nat (length [48 + wk / 10; 48 + wk mod 10])). rewrite remove_k. reflexivity.
+Qed.
+
+Definition e_text (w wd : Z) : res text := format_wday w (wd - 1).   (* day number wd-1 has weekday wd mod 7: day 0 is a Monday *)
+Lemma wday_back now w d rest : 1 <= w -> forall txt, format_wday w d = Ok txt ->
+  parse_date_part now (run 101 w) (txt ++ rest) = Ok (None, rest).
+Proof.
+  intros Hw txt Hf. rewrite pdp_unfold by lia. cbv zeta. cbn [Z.eqb Pos.eqb]. unfold parse_wday. unfold format_wday in Hf.
+  pose proof (wd_step d) as [_ W]. set (x := days_to_wday d false) in *.
+  assert (W2 : days_to_wday d true = (x + 6) mod 7) by (subst x; unfold days_to_wday; lia). rewrite W2 in Hf.
+  assert (X : x = 0 \/ x = 1 \/ x = 2 \/ x = 3 \/ x = 4 \/ x = 5 \/ x = 6) by lia. clearbody x.
+  assert (C : w = 1 \/ w = 2 \/ w = 3 \/ w = 4 \/ w = 5 \/ w = 6 \/ w = 7 \/ w = 8 \/ 8 < w) by lia.
+  destruct C as [-> | [-> | [-> | [-> | [-> | [-> | [-> | [-> | C]]]]]]]].
+  4: { destruct X as [-> | [-> | [-> | [-> | [-> | [-> | ->]]]]]]; vm_compute in Hf; injection Hf as <-;
+       unfold find_prefix, starts_with, WDAY_WIDE, str; cbn [map length firstn app text_eqb Z.eqb Pos.eqb andb Z.add]; rm_lit; reflexivity. }
+  1-7: destruct X as [-> | [-> | [-> | [-> | [-> | [-> | ->]]]]]]; vm_compute in Hf; injection Hf as <-; rm_lit; reflexivity.
+  assert (M : forall A B Cc Dd E F G H I : res text, match w with 1 | 2 => A | 3 => B | 4 => Cc | 5 => Dd | 6 => E | 7 => F | 8 => G | _ => I end = I).
+  { intros. destruct w as [|p|p]; try lia. do 4 (try destruct p as [p|p|]); try lia; reflexivity. }
+  assert (M' : forall A B Cc E : res (option (punit * Z) * text), match w with 2 | 3 => A | 4 => B | 6 | 8 => Cc | _ => E end = E).
+  { intros. destruct w as [|p|p]; try lia. do 4 (try destruct p as [p|p|]); try lia; reflexivity. }
+  rewrite M in Hf by exact (Ok []). rewrite M'.
+  destruct X as [-> | [-> | [-> | [-> | [-> | [-> | ->]]]]]]; vm_compute in Hf; injection Hf as <-; rm_lit; reflexivity.
 Qed.
